@@ -149,7 +149,9 @@ def case_strategy(draw, names_by_lang, decl_blocks):
             ways += ["decl", "decl+file"]
         way = draw(st.sampled_from(ways))
         b = draw(body(lang))
-        rec = dict(lang=lang, name=name, way=way, body=b)
+        # marker lines of a splicer file may be indented (they are in every generated file); the body
+        # lines keep their own, independent indentation
+        rec = dict(lang=lang, name=name, way=way, body=b, mindent=draw(st.sampled_from([0, 0, 2, 4, 8, 11])))
         if way == "decl+file":
             rec["loser"] = draw(body(lang))
         supplied.append(rec)
@@ -167,7 +169,7 @@ def build_inputs(doc, case, decl_blocks):
     for s in case["supplied"]:
         way = s["way"]
         if way in ("cmdfile", "yamlfile"):
-            per_file.setdefault((way, s["lang"]), []).append((s["name"], s["body"]))
+            per_file.setdefault((way, s["lang"]), []).append((s["name"], s["body"], s.get("mindent", 0)))
         elif way == "code":
             sc = doc.setdefault("splicer_code", {}).setdefault(s["lang"], {})
             parts = s["name"].split(".")
@@ -179,16 +181,16 @@ def build_inputs(doc, case, decl_blocks):
             node = meta.get_node(doc, tuple(path))
             node.setdefault("splicer", {})[s["lang"]] = list(s["body"])
             if way == "decl+file":
-                per_file.setdefault(("cmdfile", s["lang"]), []).append((s["name"], s["loser"]))
+                per_file.setdefault(("cmdfile", s["lang"]), []).append((s["name"], s["loser"], s.get("mindent", 0)))
     for (way, lang), items in sorted(per_file.items()):
         com = COMMENT[lang]
         text = []
         for j in case["junk"]:
             text.append(j)
-        for name, b in items:
-            text.append("%s splicer begin %s" % (com, name))
+        for name, b, mindent in items:
+            text.append("%s%s splicer begin %s" % (" " * mindent, com, name))
             text.extend(b)
-            text.append("%s splicer end %s" % (com, name))
+            text.append("%s%s splicer end %s" % (" " * mindent, com, name))
             text.append("text between blocks is ignored")
         fn = "user_%s_%s%s" % (way, lang, SUFFIX[lang])
         files[fn] = "\n".join(text) + "\n"
